@@ -69,3 +69,46 @@ package fox
 //@   ensures result != nil && fresh(result) && result.fox == fox && result.write == write && result.rootTxn != nil
 //@   ensures locked: write ==> held[&fox.mu]
 //@   ensures nolock: !write ==> held[&fox.mu] == old(held[&fox.mu]) && lockOps[&fox.mu] == old(lockOps[&fox.mu])
+
+//@ -- ---------------------------------------------------------------- managed transactions
+
+//@ -- assumed contract of the function handed to Updates/View: it may do anything to the heap through
+//@ -- the transaction, but it neither commits nor aborts it and leaves the lock state alone
+//@ extern (*Router).Updates#fn
+//@   params self, txn
+//@   modifies heap
+//@   ensures txn.fox == old(txn.fox) && txn.write == old(txn.write) && txn.rootTxn == old(txn.rootTxn) && (txn.rootTxn != nil ==> txn.rootTxn.tree != nil)
+//@ extern (*Router).View#fn
+//@   params self, txn
+//@   modifies heap
+//@   ensures txn.fox == old(txn.fox) && txn.write == old(txn.write) && txn.rootTxn == old(txn.rootTxn) && (txn.rootTxn != nil ==> txn.rootTxn.tree != nil)
+
+//@ -- the deferred function: aborts; when a panic is in flight it aborts first and re-raises the same value
+//@ func (*Router).Updates$1 props C04,C15
+//@   requires txnOK(txn)
+//@   modifies txn.rootTxn, held[&txn.fox.mu], lockOps[&txn.fox.mu]
+//@   panics-when panicking != nil
+//@   assert-at panic#1 : reraised: panic_value == panicking && (txn.write ==> txn.rootTxn == nil) && (old(txn.write && txn.rootTxn != nil) ==> !held[&txn.fox.mu]) && pubCount[&txn.fox.tree] == old(pubCount[&txn.fox.tree])
+//@   ensures settled: txn.write ==> txn.rootTxn == nil
+//@   ensures nothing-published: pubCount[&txn.fox.tree] == old(pubCount[&txn.fox.tree]) && published[&txn.fox.tree] == old(published[&txn.fox.tree])
+//@   ensures unlocked: old(txn.write && txn.rootTxn != nil) ==> !held[&txn.fox.mu]
+//@   ensures noop: !old(txn.write && txn.rootTxn != nil) ==> held[&txn.fox.mu] == old(held[&txn.fox.mu]) && lockOps[&txn.fox.mu] == old(lockOps[&txn.fox.mu])
+
+//@ func (*Router).View$1 props C04,C06,C15
+//@   requires txnOK(txn) && !txn.write
+//@   modifies txn.rootTxn
+//@   panics-when panicking != nil
+//@   assert-at panic#1 : reraised: panic_value == panicking && held[&txn.fox.mu] == old(held[&txn.fox.mu]) && lockOps[&txn.fox.mu] == old(lockOps[&txn.fox.mu])
+//@   ensures nolock: held[&txn.fox.mu] == old(held[&txn.fox.mu]) && lockOps[&txn.fox.mu] == old(lockOps[&txn.fox.mu]) && pubCount[&txn.fox.tree] == old(pubCount[&txn.fox.tree])
+
+//@ func (*Router).Updates props C04,C15
+//@   requires fox != nil && fn != nil && published[&fox.tree] != nil && !held[&fox.mu] && panicking == nil
+//@   modifies heap, held[&fox.mu], lockOps[&fox.mu], published[&fox.tree], pubCount[&fox.tree]
+//@   ensures unlocked: !held[&fox.mu]
+//@   ensures committed: result == nil ==> pubCount[&fox.tree] == old(pubCount[&fox.tree]) + 1
+//@   ensures aborted: result != nil ==> pubCount[&fox.tree] == old(pubCount[&fox.tree]) && published[&fox.tree] == old(published[&fox.tree])
+
+//@ func (*Router).View props C04,C06
+//@   requires fox != nil && fn != nil && published[&fox.tree] != nil && panicking == nil
+//@   modifies heap
+//@   ensures nolock: held[&fox.mu] == old(held[&fox.mu]) && lockOps[&fox.mu] == old(lockOps[&fox.mu]) && pubCount[&fox.tree] == old(pubCount[&fox.tree]) && published[&fox.tree] == old(published[&fox.tree])
